@@ -248,6 +248,14 @@ where
     }
 }
 
+#[cfg(feature = "verif-hooks")]
+impl<Req, Resp, T> BaseChannel<Req, Resp, T> {
+    /// (tracked in-flight requests, armed deadline timers).
+    pub fn verif_counts(&self) -> (usize, usize) {
+        self.in_flight_requests.verif_counts()
+    }
+}
+
 impl<Req, Resp, T> fmt::Debug for BaseChannel<Req, Resp, T> {
     fn fmt(&self, f: &mut fmt::Formatter<'_>) -> fmt::Result {
         write!(f, "BaseChannel")
